@@ -447,6 +447,14 @@ func callSSA(i *interpreter, caller *frame, callpos token.Pos, fn *ssa.Function,
 	if h := lookupIntrinsic(fn); h != nil {
 		return h(fr, args)
 	}
+	// harness-supplied replacement at one of yardl's own I/O seams: verifRepl_<name> in the same package
+	if fn.Pkg != nil && fn.Signature.Recv() == nil && fn.Parent() == nil && !strings.HasPrefix(fn.Name(), "verif") {
+		if r := fn.Pkg.Func("verifRepl_" + fn.Name()); r != nil {
+			i.ex.replaced[fn.String()] = true
+			fn = r
+			fr.fn = r
+		}
+	}
 	pp := pkgPathOf(fn)
 	if pp != "" && !strings.HasPrefix(pp, yardlPrefix) && !interpretedForeign[pp] {
 		if fn.Name() == "init" || strings.HasPrefix(fn.Name(), "init#") {
